@@ -1,7 +1,7 @@
 (* one entry point for the extracted model: first integer = property / function selector *)
 From Coq Require Import ZArith List.
 Import ListNotations.
-Require Import EV.model.Cfg EV.model.Enc EV.model.ChanFileRun EV.model.GroupIds EV.model.C20Run EV.model.FrameRun EV.model.CodecRun EV.model.PoolRun EV.model.Exec EV.model.ExecRun EV.model.ExecRelRun EV.model.Chan EV.model.ChanRun EV.model.Link EV.model.LinkRun EV.model.Ids EV.model.IdsRun EV.model.RSync EV.model.RSyncRun EV.model.ProxyRun EV.model.FdTable EV.model.FdRun EV.model.Term EV.model.TermRun EV.gen.Facts.
+Require Import EV.model.Cfg EV.model.Enc EV.model.ChanFileRun EV.model.GroupIds EV.model.C20Run EV.model.FrameRun EV.model.CodecRun EV.model.PoolRun EV.model.Exec EV.model.ExecRun EV.model.ExecRelRun EV.model.Chan EV.model.ChanRun EV.model.Link EV.model.LinkRun EV.model.Ids EV.model.IdsRun EV.model.RSync EV.model.RSyncRun EV.model.ProxyRun EV.model.FdTable EV.model.FdRun EV.model.Term EV.model.TermRun EV.model.Reconf EV.model.ReconfRun EV.gen.Facts.
 Open Scope Z_scope.
 
 Definition dispatch (inp : list Z) : list Z :=
@@ -25,6 +25,7 @@ Definition dispatch (inp : list Z) : list Z :=
   | 17 :: r => run_rsync r
   | 18 :: r => run_ids ids_cfg r
   | 19 :: r => run_chanfile cf_newline r
+  | 22 :: r => run_reconf reconf_handler_creates_object r
   | 20 :: 0 :: r => run_xspec xspec_env_dup_checked r
   | 20 :: 1 :: r => run_group group_cfg r
   | 20 :: 2 :: r => run_group_all group_cfg r
